@@ -1,11 +1,1168 @@
 import BnpVerif.Model.C12
 import BnpVerif.Gen.C12
-/-! C12 property theorems (see `Audit/C12.lean` for the list). -/
+/-! C12 property theorems (see `Audit/C12.lean` for the list). Helper lemmas first. -/
 namespace C12
 
 /-- **C12.gen_flags** — obligations regenerated from the running code on every run: `chromosome_order`
 covers every included name, and both synchronising generators look one item ahead. -/
 theorem gen_flags : Gen.C12.orderSkipsUnderscore = false ∧ Gen.C12.iterLookahead = true ∧ Gen.C12.syncLookahead = true := by
   decide
+
+/-! ### refutations of the shipped rules (witnesses replayed on the implementation) -/
+
+/-- **C12.zip_second_unsound** — without look-ahead, a mis-ordered stream that is *not* the first
+argument of `zip` completes silently: genome order `[0, 1]`, first operand in order, second operand
+`[1, 0]`. `zip` completes with two rows and the second operand's entries of contig 0 are left out,
+although the property demands an error (`specSync = none`); the same mis-order in the first operand
+raises. Holds for `iter_chromosomes` and for `SynchedStream` (forbes / jaccard). -/
+theorem zip_second_unsound :
+    let good : List Group := [⟨0, [1]⟩, ⟨1, [2]⟩]
+    let bad : List Group := [⟨1, [2]⟩, ⟨0, [1]⟩]
+    specSync [0, 1] [] bad = none ∧
+    zipAll 8 [.iter (IterSt.init [0, 1] [0, 1] [] good), .iter (IterSt.init [0, 1] [0, 1] [] bad)] =
+      some [[[1], []], [[2], [2]]] ∧
+    zipAll 8 [.iter (IterSt.init [0, 1] [0, 1] [] bad), .iter (IterSt.init [0, 1] [0, 1] [] good)] = none ∧
+    zipAll 8 [.sync (SyncSt.init [0, 1] good), .sync (SyncSt.init [0, 1] bad), .plain [[16], [17]]] =
+      some [[[1], [], [16]], [[2], [2], [17]]] ∧
+    zipAll 8 [.sync (SyncSt.init [0, 1] bad), .sync (SyncSt.init [0, 1] good), .plain [[16], [17]]] = none := by
+  decide
+
+/-- **C12.graph_single_stream_unsound** — the same happens with a single data stream when the consumer
+pulls another stream first (the computation graph evaluates the chromosome-name stream before the
+data stream): the mis-ordered data `[1, 0]` completes with contig 0's entries dropped. -/
+theorem graph_single_stream_unsound :
+    zipAll 8 [.plain [[], []], .iter (IterSt.init [0, 1] [0, 1] [] [⟨1, [2]⟩, ⟨0, [1]⟩]), .plain [[], []]] =
+      some [[[], [], []], [[], [2], []]] := by
+  decide
+
+/-- **C12.underscore_unsound** — with `chromosome_order` leaving out an included name (contig 1 carries
+a `_` and the filter is disabled: order `[0, 2]`, included `[0, 1, 2]`), pull-all evaluation completes
+with contig 1's entries dropped, and sorted data is rejected. -/
+theorem underscore_unsound :
+    pullAll IterSt.pull 8 (IterSt.init [0, 2] [0, 1, 2] [] [⟨1, [3]⟩]) = some [[], []] ∧
+    specSync [0, 1, 2] [] [⟨1, [3]⟩] = some [[], [3], []] ∧
+    pullAll IterSt.pull 8 (IterSt.init [0, 2] [0, 1, 2] [] [⟨1, [3]⟩, ⟨2, [4]⟩]) = none ∧
+    specSync [0, 1, 2] [] [⟨1, [3]⟩, ⟨2, [4]⟩] = some [[], [3], [4]] := by
+  decide
+
+/-- **C12.zip_fixed_witness** — with the look-ahead of the repair the witnesses above raise. -/
+theorem zip_fixed_witness :
+    let good : List Group := [⟨0, [1]⟩, ⟨1, [2]⟩]
+    let bad : List Group := [⟨1, [2]⟩, ⟨0, [1]⟩]
+    zipAll 8 [.lookIter (IterSt.init [0, 1] [0, 1] [] good) .fresh, .lookIter (IterSt.init [0, 1] [0, 1] [] bad) .fresh] = none ∧
+    zipAll 8 [.lookSync (SyncSt.init [0, 1] good) .fresh, .lookSync (SyncSt.init [0, 1] bad) .fresh, .plain [[16], [17]]] = none ∧
+    zipAll 8 [.plain [[], []], .lookIter (IterSt.init [0, 1] [0, 1] [] bad) .fresh, .plain [[], []]] = none ∧
+    zipAll 8 [.lookIter (IterSt.init [0, 1] [0, 1] [] good) .fresh, .lookIter (IterSt.init [0, 1] [0, 1] [] good) .fresh] =
+      some [[[1], [1]], [[2], [2]]] := by
+  decide
+
+/-! ### every chunking gives the same groups -/
+
+theorem joinOne_singleton (e : Name × Nat) (Z : List Group) :
+    joinOne { name := e.1, items := [e.2] } Z = consEntry e Z := by
+  cases Z with
+  | nil => rfl
+  | cons h t => simp [joinOne, consEntry]
+
+theorem foldr_join_chunk (a : List (Name × Nat)) (X : List Group) :
+    (chunkGroups a).foldr joinOne X = a.foldr consEntry X := by
+  induction a with
+  | nil => rfl
+  | cons e a' ih =>
+    simp only [chunkGroups, List.foldr_cons] at ih ⊢
+    cases hc : List.foldr consEntry [] a' with
+    | nil =>
+      rw [hc] at ih
+      simp only [List.foldr_nil] at ih
+      have h1 : consEntry e [] = [{ name := e.1, items := [e.2] }] := rfl
+      rw [h1, List.foldr_cons, List.foldr_nil, ← ih, joinOne_singleton]
+    | cons g t =>
+      rw [hc] at ih
+      simp only [List.foldr_cons] at ih
+      by_cases hg : g.name = e.1
+      · simp only [consEntry, hg, if_true, List.foldr_cons]
+        rw [← ih]
+        cases hY : List.foldr joinOne X t with
+        | nil => simp [joinOne, hg]
+        | cons h t' =>
+          by_cases hh : h.name = g.name
+          · have : h.name = e.1 := by rw [hh, hg]
+            simp [joinOne, hh, hg]
+          · have : ¬ h.name = e.1 := by rw [← hg]; exact hh
+            simp [joinOne, hg, this]
+      · simp only [consEntry, hg, if_false, List.foldr_cons]
+        rw [← ih]
+        exact joinOne_singleton e _
+
+/-- **C12.groups_chunking** — for *every* chunking of the entries, grouping each chunk and joining
+equal consecutive keys across the chunk borders gives the runs of equal contig name of the whole
+entry list: the group sequence the synchronisers see does not depend on the chunking. -/
+theorem groups_chunking (chunks : List (List (Name × Nat))) :
+    groupsOfChunks chunks = chunkGroups chunks.flatten := by
+  unfold groupsOfChunks
+  induction chunks with
+  | nil => rfl
+  | cons c rest ih =>
+    simp only [List.map_cons, List.flatten_cons, joinGroups, List.foldr_append]
+    rw [foldr_join_chunk]
+    simp only [joinGroups] at ih
+    rw [ih, chunkGroups, chunkGroups, List.foldr_append]
+
+/-! ### the pull-step machine of `iter_chromosomes` under a pull-all consumer is a walk over the order -/
+
+/-- big-step form of the generator, from the top of the `for name in real_order` loop -/
+def walk (O I : List Name) : List Name → List Name → Option Group → List Group → Option (List Item)
+  | [], _, _, src =>
+    match nextIncluded O I src with
+    | some (none, _) => some []
+    | _ => none
+  | name :: rest, seen, nx, src =>
+    match nx with
+    | some g =>
+      if g.name = name then
+        match nextIncluded O I src with
+        | none => none
+        | some (nx', src') =>
+          if (match nx' with | some g' => seen.contains g'.name | none => false) then none
+          else (walk O I rest (seen ++ [name]) nx' src').map (g.items :: ·)
+      else (walk O I rest (seen ++ [name]) nx src).map ([] :: ·)
+    | none => (walk O I rest (seen ++ [name]) none src).map ([] :: ·)
+
+/-- what a pull-all consumer makes of the result of one pull -/
+def cont (fuel : Nat) : Step IterSt → Option (List Item)
+  | .error => none
+  | .done => some []
+  | .yield x s' => (pullAll IterSt.pull fuel s').map (x :: ·)
+
+theorem pullAll_succ (f : Nat) (s : IterSt) : pullAll IterSt.pull (f + 1) s = cont f s.pull := by
+  simp only [pullAll, cont]
+  cases s.pull <;> rfl
+
+theorem serve_eq_walk (ord : List Name) : ∀ (s : IterSt) (fuel : Nat), s.order = ord → ord.length + 1 ≤ fuel →
+    cont fuel s.serve = walk s.included s.ignored ord s.seen s.next s.src := by
+  induction ord with
+  | nil =>
+    intro s fuel ho _
+    simp only [IterSt.serve, ho, walk]
+    cases nextIncluded s.included s.ignored s.src with
+    | none => rfl
+    | some r =>
+      obtain ⟨nx, src'⟩ := r
+      cases nx <;> rfl
+  | cons name rest ih =>
+    intro s fuel ho hf
+    obtain ⟨f, rfl⟩ : ∃ f, fuel = f + 1 := ⟨fuel - 1, by simp at hf; omega⟩
+    have hf' : rest.length + 1 ≤ f := by simp at hf; omega
+    simp only [IterSt.serve, ho, walk]
+    cases hnx : s.next with
+    | none =>
+      simp only [cont]
+      rw [pullAll_succ]
+      simp only [IterSt.pull]
+      have := ih { s with order := rest, phase := .afterEmpty name, seen := s.seen ++ [name] } f rfl hf'
+      simp only [hnx] at this
+      rw [this]
+    | some g =>
+      by_cases hg : g.name = name
+      · simp only [hg, if_true, cont]
+        rw [pullAll_succ]
+        simp only [IterSt.pull]
+        cases hni : nextIncluded s.included s.ignored s.src with
+        | none => rfl
+        | some r =>
+          obtain ⟨nx', src'⟩ := r
+          simp only []
+          cases nx' with
+          | none =>
+            simp only [Bool.false_eq_true, if_false]
+            have := ih { s with order := rest, phase := .afterGroup name, next := none, src := src', seen := s.seen ++ [name] } f rfl hf'
+            simp only [] at this
+            rw [this]
+          | some g' =>
+            by_cases hs : g'.name ∈ s.seen
+            · simp [hs, cont]
+            · simp only [List.contains_eq_mem, decide_eq_true_eq, hs, if_false]
+              have := ih { s with order := rest, phase := .afterGroup name, next := some g', src := src', seen := s.seen ++ [name] } f rfl hf'
+              simp only [] at this
+              rw [this]
+      · simp only [hg, if_false, cont]
+        rw [pullAll_succ]
+        simp only [IterSt.pull]
+        have := ih { s with order := rest, phase := .afterEmpty name, seen := s.seen ++ [name] } f rfl hf'
+        simp only [hnx] at this
+        rw [this]
+
+/-- pull-all evaluation of `iter_chromosomes` in big-step form -/
+theorem pullAll_iter_eq_walk (order included ignored : List Name) (gs : List Group) (fuel : Nat)
+    (hf : order.length + 2 ≤ fuel) :
+    pullAll IterSt.pull fuel (IterSt.init order included ignored gs) =
+    match nextIncluded included ignored gs with
+    | none => none
+    | some (nx, src) => walk included ignored order [] nx src := by
+  obtain ⟨f, rfl⟩ : ∃ f, fuel = f + 1 := ⟨fuel - 1, by omega⟩
+  rw [pullAll_succ]
+  simp only [IterSt.pull, IterSt.init]
+  cases hni : nextIncluded included ignored gs with
+  | none => rfl
+  | some r =>
+    obtain ⟨nx, src⟩ := r
+    simp only []
+    have := serve_eq_walk order { order := order, included := included, ignored := ignored, src := src, next := nx, seen := [], phase := .start } f rfl (by omega)
+    simp only [] at this
+    rw [this]
+
+/-! ### the walk is the specification -/
+
+/-- the groups the generator does not skip -/
+def kept (I : List Name) (src : List Group) : List Group := src.filter (fun g => !I.contains g.name)
+
+/-- `specSync` on an already filtered group list -/
+def spec' (ord : List Name) (l : List Group) : Option (List Item) :=
+  if compatible (l.map (·.name)) ord then some (ord.map (itemsOf l)) else none
+
+theorem specSync_eq (order ignored : List Name) (gs : List Group) :
+    specSync order ignored gs = spec' order (kept ignored gs) := rfl
+
+theorem compatible_mem (l ord : List Name) (h : compatible l ord = true) : ∀ a ∈ l, a ∈ ord := by
+  induction ord generalizing l with
+  | nil =>
+    cases l with
+    | nil => simp
+    | cons a l => simp [compatible] at h
+  | cons b ord ih =>
+    cases l with
+    | nil => simp
+    | cons a l =>
+      simp only [compatible] at h
+      intro x hx
+      by_cases hab : a = b
+      · simp only [hab, if_true] at h
+        rcases List.mem_cons.mp hx with rfl | hx
+        · simp [hab]
+        · exact List.mem_cons_of_mem _ (ih l h x hx)
+      · simp only [hab, if_false] at h
+        exact List.mem_cons_of_mem _ (ih (a :: l) h x hx)
+
+theorem compatible_nil (ord : List Name) : compatible [] ord = true := by
+  cases ord <;> rfl
+
+theorem kept_cons (I : List Name) (g : Group) (r : List Group) :
+    kept I (g :: r) = if I.contains g.name then kept I r else g :: kept I r := by
+  simp only [kept, List.filter_cons]
+  cases I.contains g.name <;> simp
+
+theorem nextIncluded_spec (O I : List Name) (src : List Group) :
+    match nextIncluded O I src with
+    | some (none, r) => kept I src = [] ∧ r = []
+    | some (some g, r) => kept I src = g :: kept I r ∧ g.name ∈ O
+    | none => ∃ g r, kept I src = g :: r ∧ g.name ∉ O := by
+  induction src with
+  | nil => simp [nextIncluded, kept]
+  | cons g r ih =>
+    simp only [nextIncluded]
+    by_cases hi : I.contains g.name = true
+    · simp only [hi, if_true]
+      rw [kept_cons, if_pos hi]
+      exact ih
+    · simp only [hi, Bool.false_eq_true, if_false]
+      rw [kept_cons, if_neg hi]
+      by_cases ho : O.contains g.name = true
+      · simp only [ho, if_true]
+        first
+          | exact ⟨rfl, by simpa using ho⟩
+          | simpa using ho
+      · simp only [ho, Bool.false_eq_true, if_false]
+        exact ⟨g, kept I r, rfl, by simpa using ho⟩
+
+theorem nextIncluded_of_kept_nil (O I : List Name) (src : List Group) (h : kept I src = []) :
+    ∃ r, nextIncluded O I src = some (none, r) := by
+  have := nextIncluded_spec O I src
+  cases hn : nextIncluded O I src with
+  | none => rw [hn] at this; obtain ⟨g, r, h1, _⟩ := this; rw [h] at h1; cases h1
+  | some p =>
+    obtain ⟨nx, r⟩ := p
+    cases nx with
+    | none => exact ⟨r, rfl⟩
+    | some g => rw [hn] at this; rw [h] at this; cases this.1
+
+theorem itemsOf_cons_eq (g : Group) (l : List Group) (n : Name) (h : g.name = n) : itemsOf (g :: l) n = g.items := by
+  simp [itemsOf, h]
+
+theorem itemsOf_cons_ne (g : Group) (l : List Group) (n : Name) (h : g.name ≠ n) : itemsOf (g :: l) n = itemsOf l n := by
+  simp [itemsOf, h]
+
+theorem itemsOf_not_mem (l : List Group) (n : Name) (h : ∀ g ∈ l, g.name ≠ n) : itemsOf l n = [] := by
+  induction l with
+  | nil => rfl
+  | cons g l ih =>
+    rw [itemsOf_cons_ne g l n (h g (List.mem_cons_self ..))]
+    exact ih (fun x hx => h x (List.mem_cons_of_mem _ hx))
+
+theorem spec'_cons_eq (g : Group) (K : List Group) (name : Name) (rest : List Name) (hg : g.name = name)
+    (hn : name ∉ rest) : spec' (name :: rest) (g :: K) = (spec' rest K).map (g.items :: ·) := by
+  simp only [spec', List.map_cons, compatible, hg, if_true]
+  by_cases hc : compatible (K.map (·.name)) rest = true
+  · simp only [hc, if_true, Option.map_some, Option.some.injEq]
+    rw [itemsOf_cons_eq g K name hg]
+    congr 1
+    apply List.map_congr_left
+    intro n hnr
+    exact itemsOf_cons_ne g K n (by rw [hg]; intro h; exact hn (h ▸ hnr))
+  · simp [hc]
+
+theorem spec'_cons_ne (l : List Group) (name : Name) (rest : List Name) (hn : name ∉ rest)
+    (hl : ∀ g, l.head? = some g → g.name ≠ name) :
+    spec' (name :: rest) l = (spec' rest l).map ([] :: ·) := by
+  have hcomp : compatible (l.map (·.name)) (name :: rest) = compatible (l.map (·.name)) rest := by
+    cases l with
+    | nil => simp [compatible_nil]
+    | cons g K =>
+      have := hl g rfl
+      simp [compatible, this]
+  simp only [spec', hcomp]
+  by_cases hc : compatible (l.map (·.name)) rest = true
+  · simp only [hc, if_true, Option.map_some, Option.some.injEq, List.map_cons]
+    congr 1
+    apply itemsOf_not_mem
+    intro g hg h
+    have := compatible_mem _ _ hc g.name (List.mem_map_of_mem hg)
+    exact hn (h ▸ this)
+  · simp [hc]
+
+theorem walk_spec (O I : List Name) (ord : List Name) : ∀ (seen : List Name) (nx : Option Group) (src : List Group),
+    ord.Nodup → (∀ n ∈ ord, n ∈ O) → (∀ n ∈ seen, n ∉ ord) → (∀ n ∈ O, n ∈ seen ∨ n ∈ ord) →
+    ((nx.toList ++ kept I src).map (·.name)).Nodup →
+    (∀ g, nx = some g → g.name ∈ ord) → (nx = none → kept I src = []) →
+    walk O I ord seen nx src = spec' ord (nx.toList ++ kept I src) := by
+  induction ord with
+  | nil =>
+    intro seen nx src _ _ _ _ _ hnx hnone
+    cases nx with
+    | some g => have := hnx g rfl; simp at this
+    | none =>
+      have hk := hnone rfl
+      obtain ⟨r, hr⟩ := nextIncluded_of_kept_nil O I src hk
+      simp [walk, hr, hk, spec', compatible]
+  | cons name rest ih =>
+    intro seen nx src hnd hsub hdis hcov hnames hnx hnone
+    have hname : name ∉ rest := (List.nodup_cons.mp hnd).1
+    have hrest : rest.Nodup := (List.nodup_cons.mp hnd).2
+    have hsub' : ∀ n ∈ rest, n ∈ O := fun n h => hsub n (List.mem_cons_of_mem _ h)
+    have hdis' : ∀ n ∈ seen ++ [name], n ∉ rest := by
+      intro n hn
+      rcases List.mem_append.mp hn with h | h
+      · exact fun hr => hdis n h (List.mem_cons_of_mem _ hr)
+      · have : n = name := by simpa using h
+        rw [this]; exact hname
+    have hcov' : ∀ n ∈ O, n ∈ seen ++ [name] ∨ n ∈ rest := by
+      intro n hn
+      rcases hcov n hn with h | h
+      · exact Or.inl (List.mem_append_left _ h)
+      · rcases List.mem_cons.mp h with rfl | h
+        · exact Or.inl (by simp)
+        · exact Or.inr h
+    cases nx with
+    | none =>
+      have hk := hnone rfl
+      simp only [walk, Option.toList, List.nil_append, hk]
+      rw [ih (seen ++ [name]) none src hrest hsub' hdis' hcov' (by simp [hk]) (by simp) (fun _ => hk)]
+      simp only [Option.toList, List.nil_append, hk]
+      rw [spec'_cons_ne [] name rest hname (by simp)]
+    | some g =>
+      have hgo := hnx g rfl
+      simp only [Option.toList, List.singleton_append] at hnames ⊢
+      by_cases hg : g.name = name
+      · simp only [walk, hg, if_true]
+        have hspec := nextIncluded_spec O I src
+        cases hni : nextIncluded O I src with
+        | none =>
+          rw [hni] at hspec
+          obtain ⟨k, r, hk, hko⟩ := hspec
+          simp only []
+          rw [spec'_cons_eq g _ name rest hg hname, hk]
+          have : compatible ((k :: r).map (·.name)) rest = false := by
+            cases hc : compatible ((k :: r).map (·.name)) rest with
+            | false => rfl
+            | true =>
+              have := compatible_mem _ _ hc k.name (by simp)
+              exact absurd (hsub' _ this) hko
+          simp only [List.map_cons] at this
+          simp [spec', this]
+        | some p =>
+          obtain ⟨nx', src'⟩ := p
+          rw [hni] at hspec
+          simp only []
+          cases nx' with
+          | none =>
+            obtain ⟨hk, hr⟩ := hspec
+            simp only [Bool.false_eq_true, if_false]
+            subst hr
+            rw [ih (seen ++ [name]) none [] hrest hsub' hdis' hcov' (by simp [kept]) (by simp) (fun _ => by simp [kept])]
+            rw [spec'_cons_eq g _ name rest hg hname, hk]
+            simp [kept]
+          | some g' =>
+            obtain ⟨hk, hgo'⟩ := hspec
+            have hg'ne : g'.name ≠ name := by
+              rw [hk] at hnames
+              simp only [List.map_cons, List.nodup_cons, List.mem_cons, not_or] at hnames
+              intro h; exact hnames.1.1 (by rw [hg, h])
+            by_cases hs : g'.name ∈ seen
+            · simp only [List.contains_eq_mem, decide_eq_true_eq, hs, if_true]
+              rw [spec'_cons_eq g _ name rest hg hname, hk]
+              have : compatible ((g' :: kept I src').map (·.name)) rest = false := by
+                cases hc : compatible ((g' :: kept I src').map (·.name)) rest with
+                | false => rfl
+                | true =>
+                  have := compatible_mem _ _ hc g'.name (by simp)
+                  exact absurd (List.mem_cons_of_mem _ this) (hdis _ hs)
+              simp only [List.map_cons] at this
+              simp [spec', this]
+            · simp only [List.contains_eq_mem, decide_eq_true_eq, hs, if_false]
+              have hg'rest : g'.name ∈ rest := by
+                rcases hcov _ hgo' with h | h
+                · exact absurd h hs
+                · rcases List.mem_cons.mp h with h | h
+                  · exact absurd h hg'ne
+                  · exact h
+              rw [ih (seen ++ [name]) (some g') src' hrest hsub' hdis' hcov'
+                (by
+                  rw [hk] at hnames
+                  simp only [Option.toList, List.singleton_append]
+                  exact (List.nodup_cons.mp (by simpa using hnames)).2)
+                (by intro x hx; cases hx; exact hg'rest) (by simp)]
+              rw [spec'_cons_eq g _ name rest hg hname, hk]
+              simp [Option.toList]
+      · simp only [walk, hg, if_false]
+        have hgrest : g.name ∈ rest := by
+          rcases List.mem_cons.mp hgo with h | h
+          · exact absurd h hg
+          · exact h
+        rw [ih (seen ++ [name]) (some g) src hrest hsub' hdis' hcov' (by simpa [Option.toList] using hnames)
+          (by intro x hx; cases hx; exact hgrest) (by simp)]
+        simp only [Option.toList, List.singleton_append]
+        rw [spec'_cons_ne (g :: kept I src) name rest hname (by intro x hx; simp at hx; rw [← hx]; exact hg)]
+
+/-- **C12.sync_complete** — for every genome order (distinct names), ignored set and sequence of groups
+whose non-ignored names are distinct (the contiguity precondition), pull-all evaluation of
+`iter_chromosomes` (a `for` loop, `list(...)`, `compute` of one stream) is *exactly* the
+specification: it completes iff every non-ignored group name is in the order and the names occur in
+an order compatible with it, and then output `i` is the group named `order[i]` or the empty table;
+otherwise an error is raised. In particular it never completes with entries left out or assigned to
+another contig. -/
+theorem sync_complete (order ignored : List Name) (gs : List Group) (fuel : Nat)
+    (hord : order.Nodup) (hnames : ((kept ignored gs).map (·.name)).Nodup) (hf : order.length + 2 ≤ fuel) :
+    pullAll IterSt.pull fuel (IterSt.init order order ignored gs) = specSync order ignored gs ∧
+    (∀ out, specSync order ignored gs = some out →
+      out = order.map (itemsOf (kept ignored gs)) ∧
+      ∀ g ∈ gs, g.name ∈ order ∨ g.name ∈ ignored) := by
+  constructor
+  · rw [pullAll_iter_eq_walk _ _ _ _ _ hf, specSync_eq]
+    have hspec := nextIncluded_spec order ignored gs
+    cases hni : nextIncluded order ignored gs with
+    | none =>
+      rw [hni] at hspec
+      obtain ⟨k, r, hk, hko⟩ := hspec
+      simp only []
+      rw [hk]
+      have : compatible ((k :: r).map (·.name)) order = false := by
+        cases hc : compatible ((k :: r).map (·.name)) order with
+        | false => rfl
+        | true => exact absurd (compatible_mem _ _ hc k.name (by simp)) hko
+      simp only [List.map_cons] at this
+      simp [spec', this]
+    | some p =>
+      obtain ⟨nx, src⟩ := p
+      rw [hni] at hspec
+      simp only []
+      cases nx with
+      | none =>
+        obtain ⟨hk, hr⟩ := hspec
+        subst hr
+        rw [walk_spec order ignored order [] none [] hord (fun _ h => h) (by simp) (fun n h => Or.inr h)
+          (by simp [kept]) (by simp) (fun _ => by simp [kept])]
+        rw [hk]; simp [kept]
+      | some g =>
+        obtain ⟨hk, hgo⟩ := hspec
+        rw [walk_spec order ignored order [] (some g) src hord (fun _ h => h) (by simp) (fun n h => Or.inr h)
+          (by rw [hk] at hnames; simpa [Option.toList] using hnames)
+          (by intro x hx; cases hx; exact hgo) (by simp)]
+        rw [hk]; simp [Option.toList]
+  · intro out hout
+    rw [specSync_eq, spec'] at hout
+    by_cases hc : compatible ((kept ignored gs).map (·.name)) order = true
+    · simp only [hc, if_true, Option.some.injEq] at hout
+      refine ⟨hout.symm, ?_⟩
+      intro g hg
+      by_cases hi : ignored.contains g.name = true
+      · exact Or.inr (by simpa using hi)
+      · have : g ∈ kept ignored gs := by
+          simp only [kept, List.mem_filter]
+          exact ⟨hg, by simpa using hi⟩
+        exact Or.inl (compatible_mem _ _ hc g.name (List.mem_map_of_mem this))
+    · simp [hc] at hout
+
+example : [0, 1, 2].Nodup ∧ ((kept [7] [⟨1, [3]⟩, ⟨7, [9]⟩, ⟨2, [4]⟩]).map (·.name)).Nodup := by decide
+
+/-! ### the one-item look-ahead: every item handed out is backed by one more successful pull -/
+
+theorem look_holding {σ : Type} (pull : σ → Step σ) (n : Nat) : ∀ (s : σ) (y : Item) (xs : List Item) (st : σ × Hold),
+    takeN (lookPull pull) (n + 1) (s, .holding y) = some (xs, st) →
+    ∃ xs' s₁, xs = y :: xs' ∧ takeN pull n s = some (xs', s₁) ∧
+      ((st = (s₁, .last) ∧ pull s₁ = .done) ∨ ∃ z s₂, st = (s₂, .holding z) ∧ pull s₁ = .yield z s₂) := by
+  induction n with
+  | zero =>
+    intro s y xs st h
+    simp only [takeN, lookPull] at h
+    cases hp : pull s with
+    | error => rw [hp] at h; simp at h
+    | done =>
+      rw [hp] at h
+      simp only [Option.map_some, Option.some.injEq, Prod.mk.injEq] at h
+      exact ⟨[], s, h.1.symm, rfl, Or.inl ⟨h.2.symm, hp⟩⟩
+    | yield z s₂ =>
+      rw [hp] at h
+      simp only [Option.map_some, Option.some.injEq, Prod.mk.injEq] at h
+      exact ⟨[], s, h.1.symm, rfl, Or.inr ⟨z, s₂, h.2.symm, hp⟩⟩
+  | succ n ih =>
+    intro s y xs st h
+    rw [takeN] at h
+    simp only [lookPull] at h
+    cases hp : pull s with
+    | error => rw [hp] at h; simp at h
+    | done =>
+      rw [hp] at h
+      simp only [takeN, lookPull] at h
+      simp at h
+    | yield z s₂ =>
+      rw [hp] at h
+      simp only [] at h
+      cases hr : takeN (lookPull pull) (n + 1) (s₂, .holding z) with
+      | none => rw [hr] at h; simp at h
+      | some r =>
+        rw [hr] at h
+        simp only [Option.map_some, Option.some.injEq, Prod.mk.injEq] at h
+        obtain ⟨xs', s₁, hx, ht, hfin⟩ := ih s₂ z r.1 r.2 (by rw [hr])
+        refine ⟨r.1, s₁, h.1.symm, ?_, ?_⟩
+        · simp only [takeN, hp, ht, hx, Option.map_some]
+        · rw [← h.2]; exact hfin
+
+/-- if the look-ahead generator hands out `n ≥ 1` items, the inner generator yields the same `n` items
+and its next pull is not an error -/
+theorem look_fresh {σ : Type} (pull : σ → Step σ) (n : Nat) (s : σ) (xs : List Item) (st : σ × Hold)
+    (h : takeN (lookPull pull) (n + 1) (s, .fresh) = some (xs, st)) :
+    ∃ s₁, takeN pull (n + 1) s = some (xs, s₁) ∧ pull s₁ ≠ .error := by
+  rw [takeN] at h
+  simp only [lookPull] at h
+  cases hp : pull s with
+  | error => rw [hp] at h; simp at h
+  | done => rw [hp] at h; simp at h
+  | yield x s₁ =>
+    rw [hp] at h
+    simp only [] at h
+    cases hp₁ : pull s₁ with
+    | error => rw [hp₁] at h; simp at h
+    | done =>
+      rw [hp₁] at h
+      simp only [] at h
+      cases n with
+      | zero =>
+        simp only [takeN, Option.map_some, Option.some.injEq, Prod.mk.injEq] at h
+        exact ⟨s₁, by simp [takeN, hp, h.1], by rw [hp₁]; simp⟩
+      | succ n => simp [takeN, lookPull] at h
+    | yield y s₂ =>
+      rw [hp₁] at h
+      simp only [] at h
+      cases n with
+      | zero =>
+        simp only [takeN, Option.map_some, Option.some.injEq, Prod.mk.injEq] at h
+        exact ⟨s₁, by simp [takeN, hp, h.1], by rw [hp₁]; simp⟩
+      | succ n =>
+        cases hr : takeN (lookPull pull) (n + 1) (s₂, .holding y) with
+        | none => rw [hr] at h; simp at h
+        | some r =>
+          rw [hr] at h
+          simp only [Option.map_some, Option.some.injEq, Prod.mk.injEq] at h
+          obtain ⟨xs', s₃, hx, ht, hfin⟩ := look_holding pull n s₂ y r.1 r.2 (by rw [hr])
+          refine ⟨s₃, ?_, ?_⟩
+          · simp only [takeN, hp, hp₁, ht, Option.map_some, ← h.1, hx]
+          · rcases hfin with ⟨_, hd⟩ | ⟨z, s₄, _, hy⟩
+            · rw [hd]; simp
+            · rw [hy]; simp
+
+theorem pullAll_of_takeN {σ : Type} (pull : σ → Step σ) (n : Nat) : ∀ (s s₁ : σ) (xs : List Item) (fuel : Nat),
+    takeN pull n s = some (xs, s₁) → pull s₁ = .done → n + 1 ≤ fuel → pullAll pull fuel s = some xs := by
+  induction n with
+  | zero =>
+    intro s s₁ xs fuel h hd hf
+    simp only [takeN, Option.some.injEq, Prod.mk.injEq] at h
+    obtain ⟨f, rfl⟩ : ∃ f, fuel = f + 1 := ⟨fuel - 1, by omega⟩
+    rw [← h.2] at hd
+    simp [pullAll, hd, h.1]
+  | succ n ih =>
+    intro s s₁ xs fuel h hd hf
+    obtain ⟨f, rfl⟩ : ∃ f, fuel = f + 1 := ⟨fuel - 1, by omega⟩
+    rw [takeN] at h
+    cases hp : pull s with
+    | error => rw [hp] at h; simp at h
+    | done => rw [hp] at h; simp at h
+    | yield x s' =>
+      rw [hp] at h
+      simp only [] at h
+      cases hr : takeN pull n s' with
+      | none => rw [hr] at h; simp at h
+      | some r =>
+        rw [hr] at h
+        simp only [Option.map_some, Option.some.injEq, Prod.mk.injEq] at h
+        have := ih s' r.2 r.1 f (by rw [hr]) (by rw [h.2]; exact hd) (by omega)
+        simp [pullAll, hp, this, h.1]
+
+/-! ### `iter_chromosomes` hands out exactly one item per contig of the order -/
+
+theorem serve_order (s : IterSt) (x : Item) (s' : IterSt) (h : s.serve = .yield x s') :
+    s'.order.length + 1 = s.order.length := by
+  unfold IterSt.serve at h
+  cases ho : s.order with
+  | nil =>
+    rw [ho] at h
+    simp only [] at h
+    split at h <;> simp at h
+  | cons name rest =>
+    rw [ho] at h
+    simp only [] at h
+    split at h
+    · split at h
+      · simp only [Step.yield.injEq] at h; rw [← h.2]; simp
+      · simp only [Step.yield.injEq] at h; rw [← h.2]; simp
+    · simp only [Step.yield.injEq] at h; rw [← h.2]; simp
+
+theorem pull_cases (s : IterSt) : s.pull = .error ∨ ∃ t : IterSt, t.order = s.order ∧ s.pull = t.serve := by
+  unfold IterSt.pull
+  repeat' split
+  all_goals first
+    | exact Or.inl rfl
+    | (right; refine ⟨_, ?_, rfl⟩; rfl)
+
+theorem pull_order (s : IterSt) (x : Item) (s' : IterSt) (h : s.pull = .yield x s') :
+    s'.order.length + 1 = s.order.length := by
+  rcases pull_cases s with he | ⟨t, ht, hs⟩
+  · rw [he] at h; simp at h
+  · rw [hs] at h
+    rw [← ht]
+    exact serve_order t x s' h
+
+theorem takeN_order (n : Nat) : ∀ (s s₁ : IterSt) (xs : List Item), takeN IterSt.pull n s = some (xs, s₁) →
+    s₁.order.length + n = s.order.length := by
+  induction n with
+  | zero => intro s s₁ xs h; simp only [takeN, Option.some.injEq, Prod.mk.injEq] at h; rw [h.2]; rfl
+  | succ n ih =>
+    intro s s₁ xs h
+    rw [takeN] at h
+    cases hp : s.pull with
+    | error => rw [hp] at h; simp at h
+    | done => rw [hp] at h; simp at h
+    | yield x s' =>
+      rw [hp] at h
+      simp only [] at h
+      cases hr : takeN IterSt.pull n s' with
+      | none => rw [hr] at h; simp at h
+      | some r =>
+        rw [hr] at h
+        simp only [Option.map_some, Option.some.injEq, Prod.mk.injEq] at h
+        have h1 := ih s' r.2 r.1 (by rw [hr])
+        have h2 := pull_order s x s' hp
+        rw [← h.2]; omega
+
+theorem pull_not_yield_of_order_nil (s : IterSt) (ho : s.order = []) (x : Item) (s' : IterSt) : s.pull ≠ .yield x s' := by
+  intro h
+  have := pull_order s x s' h
+  rw [ho] at this
+  simp at this
+
+/-- **C12.sync_complete_any_consumer** — with the one-item look-ahead of the repair, *any* consumer that
+obtains all `|order|` items from `iter_chromosomes` — whether or not it ever pulls again (`zip`
+next to other streams, the computation graph, a plain loop) — has obtained exactly the
+specification's per-contig tables, and the data was compatible with the genome order; on
+incompatible data, or data naming an unknown contig, an exception is raised no later than at the
+last item. Nothing can be dropped or re-assigned silently by cutting the evaluation short. -/
+theorem sync_complete_any_consumer (order ignored : List Name) (gs : List Group)
+    (hord : order.Nodup) (hnames : ((kept ignored gs).map (·.name)).Nodup) (hpos : 0 < order.length)
+    (xs : List Item) (st : IterSt × Hold)
+    (h : takeN (lookPull IterSt.pull) order.length (IterSt.init order order ignored gs, .fresh) = some (xs, st)) :
+    specSync order ignored gs = some xs := by
+  obtain ⟨n, hn⟩ : ∃ n, order.length = n + 1 := ⟨order.length - 1, by omega⟩
+  rw [hn] at h
+  obtain ⟨s₁, ht, hne⟩ := look_fresh IterSt.pull n _ xs st h
+  have hlen := takeN_order (n + 1) _ s₁ xs ht
+  have ho : s₁.order = [] := by
+    have : (IterSt.init order order ignored gs).order.length = n + 1 := by simp [IterSt.init, hn]
+    rw [this] at hlen
+    exact List.length_eq_zero_iff.mp (by omega)
+  have hd : s₁.pull = .done := by
+    cases hp : s₁.pull with
+    | error => exact absurd hp hne
+    | done => rfl
+    | yield x s' => exact absurd hp (pull_not_yield_of_order_nil s₁ ho x s')
+  have := pullAll_of_takeN IterSt.pull (n + 1) _ s₁ xs (order.length + 2) ht hd (by omega)
+  rw [(sync_complete order ignored gs (order.length + 2) hord hnames (by omega)).1] at this
+  exact this
+
+example : (takeN (lookPull IterSt.pull) 2 (IterSt.init [0, 1] [0, 1] [] [⟨1, [2]⟩], .fresh)).map (·.1) = some [[], [2]] := by
+  decide
+
+/-! ### `SynchedStream` (MultiStream attributes, forbes, jaccard) -/
+
+/-- big-step form: place the group `g` (continuation `k` once it is placed) -/
+def placeK (g : Group) (k : List Name → Option (List Item)) : List Name → Option (List Item)
+  | [] => none
+  | n :: rest' => if g.name ≠ n then (placeK g k rest').map ([] :: ·) else (k rest').map (g.items :: ·)
+
+def runTop : List Group → List Name → Option (List Item)
+  | [], rest => some (List.replicate rest.length [])
+  | g :: r, rest => if g.name ∈ rest then placeK g (runTop r) rest else none
+
+def contS (fuel : Nat) : Step SyncSt → Option (List Item)
+  | .error => none
+  | .done => some []
+  | .yield x s' => (pullAll SyncSt.pull fuel s').map (x :: ·)
+
+theorem pullAllS_succ (f : Nat) (s : SyncSt) : pullAll SyncSt.pull (f + 1) s = contS f s.pull := by
+  simp only [pullAll, contS]
+  cases s.pull <;> rfl
+
+theorem sync_tail (rest : List Name) : ∀ (s : SyncSt) (fuel : Nat), s.rest = rest → s.cur = none → s.tail = true →
+    rest.length + 1 ≤ fuel → pullAll SyncSt.pull fuel s = some (List.replicate rest.length []) := by
+  induction rest with
+  | nil =>
+    intro s fuel hr hc ht hf
+    obtain ⟨f, rfl⟩ : ∃ f, fuel = f + 1 := ⟨fuel - 1, by simp at hf; omega⟩
+    rw [pullAllS_succ]
+    simp [SyncSt.pull, hc, ht, hr, contS]
+  | cons n rest ih =>
+    intro s fuel hr hc ht hf
+    obtain ⟨f, rfl⟩ : ∃ f, fuel = f + 1 := ⟨fuel - 1, by simp at hf; omega⟩
+    rw [pullAllS_succ]
+    simp only [SyncSt.pull, hc, ht, hr, if_true, contS]
+    have := ih { order := s.order, rest := rest, seen := s.seen, src := s.src, cur := s.cur, tail := s.tail } f rfl hc ht
+      (by simp at hf; omega)
+    simp only [hc, ht] at this
+    rw [this]
+    simp [List.replicate_succ]
+
+theorem sync_place (order : List Name) (g : Group) (r : List Group) (rest : List Name) :
+    ∀ (s : SyncSt) (fuel : Nat), s.rest = rest → s.src = r → s.order = order → s.tail = false →
+    order = s.seen ++ rest → rest.length ≤ fuel →
+    (∀ (s' : SyncSt) (fuel' : Nat), s'.cur = none → s'.tail = false → s'.src = r → s'.order = order →
+      order = s'.seen ++ s'.rest → s'.rest.length + 1 ≤ fuel' → pullAll SyncSt.pull fuel' s' = runTop r s'.rest) →
+    contS fuel (s.place g) = placeK g (runTop r) rest := by
+  induction rest with
+  | nil =>
+    intro s fuel hr _ _ _ _ _ _
+    simp [SyncSt.place, hr, contS, placeK]
+  | cons n rest ih =>
+    intro s fuel hr hsrc ho ht hinv hf hK
+    obtain ⟨f, rfl⟩ : ∃ f, fuel = f + 1 := ⟨fuel - 1, by simp at hf; omega⟩
+    have hf' : rest.length ≤ f := by simp at hf; omega
+    simp only [SyncSt.place, hr, placeK]
+    by_cases hg : g.name = n
+    · simp only [hg, ne_eq, not_true_eq_false, if_false, contS]
+      have := hK { s with seen := s.seen ++ [n], rest := rest, cur := none } (f + 1) rfl ht hsrc ho
+        (by simp [hinv]) (by simp; omega)
+      rw [this]
+    · simp only [ne_eq, hg, not_false_eq_true, if_true, contS]
+      rw [pullAllS_succ]
+      simp only [SyncSt.pull]
+      have := ih { s with seen := s.seen ++ [n], rest := rest, cur := some g } f rfl hsrc ho ht (by simp [hinv]) hf' hK
+      rw [this]
+
+theorem sync_top (order : List Name) (hnd : order.Nodup) (src : List Group) : ∀ (s : SyncSt) (fuel : Nat),
+    s.cur = none → s.tail = false → s.src = src → s.order = order → order = s.seen ++ s.rest →
+    s.rest.length + 1 ≤ fuel → pullAll SyncSt.pull fuel s = runTop src s.rest := by
+  induction src with
+  | nil =>
+    intro s fuel hc ht hsrc ho hinv hf
+    obtain ⟨f, rfl⟩ : ∃ f, fuel = f + 1 := ⟨fuel - 1, by omega⟩
+    rw [pullAllS_succ]
+    simp only [SyncSt.pull, hc, ht, hsrc, Bool.false_eq_true, if_false, runTop]
+    cases hr : s.rest with
+    | nil => simp [contS]
+    | cons n rest =>
+      simp only [contS]
+      rw [hr] at hf
+      have := sync_tail rest { s with rest := rest, tail := true } f rfl hc rfl (by simp at hf; omega)
+      simp only [hc, hsrc] at this
+      rw [this]
+      simp [List.replicate_succ]
+  | cons g r ih =>
+    intro s fuel hc ht hsrc ho hinv hf
+    obtain ⟨f, rfl⟩ : ∃ f, fuel = f + 1 := ⟨fuel - 1, by omega⟩
+    rw [pullAllS_succ]
+    simp only [SyncSt.pull, hc, ht, hsrc, Bool.false_eq_true, if_false, runTop]
+    have hnd' : (s.seen ++ s.rest).Nodup := by rw [← hinv]; exact hnd
+    by_cases hseen : g.name ∈ s.seen
+    · have : g.name ∉ s.rest := fun h => (List.nodup_append.mp hnd').2.2 _ hseen _ h rfl
+      simp [hseen, this, contS]
+    · by_cases hin : g.name ∈ s.order
+      · have hrest : g.name ∈ s.rest := by
+          rw [ho, hinv] at hin
+          rcases List.mem_append.mp hin with h | h
+          · exact absurd h hseen
+          · exact h
+        simp only [List.contains_eq_mem, decide_eq_true_eq, hseen, if_false, hin, decide_true, Bool.not_true,
+          Bool.false_eq_true, hrest, if_true]
+        have := sync_place order g r s.rest { s with src := r } f rfl rfl ho ht hinv (by omega)
+          (fun s' fuel' h1 h2 h3 h4 h5 h6 => ih s' fuel' h1 h2 h3 h4 h5 h6)
+        simp only [hc, ht] at this
+        exact this
+      · have : g.name ∉ s.rest := by
+          intro h; apply hin; rw [ho, hinv]; exact List.mem_append_right _ h
+        simp [hseen, hin, this, contS]
+
+theorem placeK_spec (g : Group) (r : List Group) (K : List Name → Option (List Item)) (rest : List Name) :
+    rest.Nodup → g.name ∈ rest → (∀ rest', rest'.Nodup → K rest' = spec' rest' r) →
+    placeK g K rest = spec' rest (g :: r) := by
+  induction rest with
+  | nil => intro _ h; simp at h
+  | cons n rest ih =>
+    intro hnd hin hK
+    have hn : n ∉ rest := (List.nodup_cons.mp hnd).1
+    have hr : rest.Nodup := (List.nodup_cons.mp hnd).2
+    simp only [placeK]
+    by_cases hg : g.name = n
+    · simp only [hg, ne_eq, not_true_eq_false, if_false]
+      rw [hK rest hr, spec'_cons_eq g r n rest hg hn]
+    · simp only [ne_eq, hg, not_false_eq_true, if_true]
+      have hin' : g.name ∈ rest := by
+        rcases List.mem_cons.mp hin with h | h
+        · exact absurd h hg
+        · exact h
+      rw [ih hr hin' hK, spec'_cons_ne (g :: r) n rest hn (by intro x hx; simp at hx; rw [← hx]; exact hg)]
+
+theorem runTop_spec (src : List Group) : ∀ (rest : List Name), rest.Nodup → runTop src rest = spec' rest src := by
+  induction src with
+  | nil =>
+    intro rest _
+    simp only [runTop, spec', List.map_nil, compatible_nil, if_true, Option.some.injEq]
+    have : ∀ l : List Name, List.replicate l.length ([] : Item) = l.map (itemsOf []) := by
+      intro l
+      induction l with
+      | nil => rfl
+      | cons n l ihl => simp [List.replicate_succ, ihl, itemsOf]
+    exact this rest
+  | cons g r ih =>
+    intro rest hnd
+    simp only [runTop]
+    by_cases hin : g.name ∈ rest
+    · simp only [hin, if_true]
+      exact placeK_spec g r (runTop r) rest hnd hin ih
+    · simp only [hin, if_false]
+      have : compatible ((g :: r).map (·.name)) rest = false := by
+        cases hc : compatible ((g :: r).map (·.name)) rest with
+        | false => rfl
+        | true => exact absurd (compatible_mem _ _ hc g.name (by simp)) hin
+      simp only [List.map_cons] at this
+      simp [spec', this]
+
+theorem kept_nil_ignored (gs : List Group) : kept [] gs = gs := by
+  simp [kept]
+
+/-- **C12.synched_complete** — pull-all evaluation of `SynchedStream` (a `MultiStream` attribute) over
+any contig order with distinct names is exactly the specification: each contig of the order gets
+the group carrying its name or the default, and an error is raised when the data names a contig
+outside the order or the groups come in an order incompatible with it (a repeated name included). -/
+theorem synched_complete (order : List Name) (gs : List Group) (fuel : Nat) (hord : order.Nodup)
+    (hf : order.length + 1 ≤ fuel) :
+    pullAll SyncSt.pull fuel (SyncSt.init order gs) = specSync order [] gs := by
+  rw [specSync_eq, kept_nil_ignored, ← runTop_spec gs order hord]
+  exact sync_top order hord gs (SyncSt.init order gs) fuel rfl rfl rfl rfl (by simp [SyncSt.init]) (by simpa [SyncSt.init] using hf)
+
+/-! ### `SynchedStream` hands out exactly one item per contig -/
+
+theorem syncPull_rest (s : SyncSt) (x : Item) (s' : SyncSt) (h : s.pull = .yield x s') :
+    s'.rest.length + 1 = s.rest.length := by
+  unfold SyncSt.pull SyncSt.place at h
+  repeat' split at h
+  all_goals first
+    | (simp at h; done)
+    | (simp only [Step.yield.injEq] at h; rw [← h.2]; simp_all)
+
+theorem takeNS_rest (n : Nat) : ∀ (s s₁ : SyncSt) (xs : List Item), takeN SyncSt.pull n s = some (xs, s₁) →
+    s₁.rest.length + n = s.rest.length := by
+  induction n with
+  | zero => intro s s₁ xs h; simp only [takeN, Option.some.injEq, Prod.mk.injEq] at h; rw [h.2]; rfl
+  | succ n ih =>
+    intro s s₁ xs h
+    rw [takeN] at h
+    cases hp : s.pull with
+    | error => rw [hp] at h; simp at h
+    | done => rw [hp] at h; simp at h
+    | yield x s' =>
+      rw [hp] at h
+      simp only [] at h
+      cases hr : takeN SyncSt.pull n s' with
+      | none => rw [hr] at h; simp at h
+      | some r =>
+        rw [hr] at h
+        simp only [Option.map_some, Option.some.injEq, Prod.mk.injEq] at h
+        have h1 := ih s' r.2 r.1 (by rw [hr])
+        have h2 := syncPull_rest s x s' hp
+        rw [← h.2]; omega
+
+/-- **C12.synched_complete_any_consumer** — with the look-ahead of the repair, any consumer that obtains
+all `|order|` items of a `SynchedStream` (the `zip` inside `streamable`, hence `forbes` and `jaccard`,
+for *every* operand position) has obtained exactly the specification's per-contig tables, and the data
+was compatible with the contig order; otherwise an exception is raised no later than at the last item. -/
+theorem synched_complete_any_consumer (order : List Name) (gs : List Group) (hord : order.Nodup)
+    (hpos : 0 < order.length) (xs : List Item) (st : SyncSt × Hold)
+    (h : takeN (lookPull SyncSt.pull) order.length (SyncSt.init order gs, .fresh) = some (xs, st)) :
+    specSync order [] gs = some xs := by
+  obtain ⟨n, hn⟩ : ∃ n, order.length = n + 1 := ⟨order.length - 1, by omega⟩
+  rw [hn] at h
+  obtain ⟨s₁, ht, hne⟩ := look_fresh SyncSt.pull n _ xs st h
+  have hlen := takeNS_rest (n + 1) _ s₁ xs ht
+  have ho : s₁.rest = [] := by
+    have : (SyncSt.init order gs).rest.length = n + 1 := by simp [SyncSt.init, hn]
+    rw [this] at hlen
+    exact List.length_eq_zero_iff.mp (by omega)
+  have hd : s₁.pull = .done := by
+    cases hp : s₁.pull with
+    | error => exact absurd hp hne
+    | done => rfl
+    | yield x s' =>
+      have := syncPull_rest s₁ x s' hp
+      rw [ho] at this; simp at this
+  have := pullAll_of_takeN SyncSt.pull (n + 1) _ s₁ xs (order.length + 1) ht hd (by omega)
+  rw [synched_complete order gs (order.length + 1) hord (by omega)] at this
+  exact this
+
+/-! ### `left_join` -/
+
+def runL : List Name → List Group → Option (List Item)
+  | [], l => if l.isEmpty then some [] else none
+  | _ :: rest, [] => (runL rest []).map ([] :: ·)
+  | n :: rest, g :: r =>
+    if g.name = n then (runL rest r).map (g.items :: ·) else (runL rest (g :: r)).map ([] :: ·)
+
+def contL (fuel : Nat) : Step LjSt → Option (List Item)
+  | .error => none
+  | .done => some []
+  | .yield x s' => (pullAll LjSt.pull fuel s').map (x :: ·)
+
+theorem pullAllL_succ (f : Nat) (s : LjSt) : pullAll LjSt.pull (f + 1) s = contL f s.pull := by
+  simp only [pullAll, contL]
+  cases s.pull <;> rfl
+
+theorem lj_started (left : List Name) : ∀ (s : LjSt) (fuel : Nat), s.started = true → s.left = left →
+    (s.nr = none → s.right = []) → left.length + 1 ≤ fuel →
+    pullAll LjSt.pull fuel s = runL left (s.nr.toList ++ s.right) := by
+  induction left with
+  | nil =>
+    intro s fuel hs hl hinv hf
+    obtain ⟨f, rfl⟩ : ∃ f, fuel = f + 1 := ⟨fuel - 1, by simp at hf; omega⟩
+    rw [pullAllL_succ]
+    simp only [LjSt.pull, hs, if_true, LjSt.body, hl, runL]
+    cases hn : s.nr with
+    | none => simp [hinv hn, contL]
+    | some g => simp [contL]
+  | cons n rest ih =>
+    intro s fuel hs hl hinv hf
+    obtain ⟨f, rfl⟩ : ∃ f, fuel = f + 1 := ⟨fuel - 1, by simp at hf; omega⟩
+    have hf' : rest.length + 1 ≤ f := by simp at hf; omega
+    rw [pullAllL_succ]
+    simp only [LjSt.pull, hs, if_true, LjSt.body, hl]
+    cases hn : s.nr with
+    | none =>
+      have hr := hinv hn
+      simp only [Option.toList, List.nil_append, hr, runL, contL]
+      have := ih { s with left := rest } f hs rfl hinv hf'
+      simp only [hn, hr, hs, Option.toList, List.nil_append] at this
+      rw [this]
+    | some g =>
+      simp only [Option.toList, List.singleton_append, runL]
+      by_cases hg : g.name = n
+      · simp only [hg, if_true, contL]
+        have := ih { s with left := rest, nr := s.right.head?, right := s.right.tail } f hs rfl
+          (by intro h; simp only [List.head?_eq_none_iff] at h; simp [h]) hf'
+        simp only [hs] at this
+        rw [this]
+        cases s.right <;> simp [Option.toList]
+      · simp only [hg, if_false, contL]
+        have := ih { s with left := rest } f hs rfl hinv hf'
+        simp only [hn, hs, Option.toList, List.singleton_append] at this
+        rw [this]
+
+theorem runL_spec (left : List Name) : ∀ (l : List Group), left.Nodup → runL left l = spec' left l := by
+  induction left with
+  | nil =>
+    intro l _
+    cases l with
+    | nil => simp [runL, spec', compatible]
+    | cons g r => simp [runL, spec', compatible]
+  | cons n rest ih =>
+    intro l hnd
+    have hn : n ∉ rest := (List.nodup_cons.mp hnd).1
+    have hr : rest.Nodup := (List.nodup_cons.mp hnd).2
+    cases l with
+    | nil =>
+      simp only [runL]
+      rw [ih [] hr, spec'_cons_ne [] n rest hn (by simp)]
+    | cons g r =>
+      simp only [runL]
+      by_cases hg : g.name = n
+      · simp only [hg, if_true]
+        rw [ih r hr, spec'_cons_eq g r n rest hg hn]
+      · simp only [hg, if_false]
+        rw [ih (g :: r) hr, spec'_cons_ne (g :: r) n rest hn (by intro x hx; simp at hx; rw [← hx]; exact hg)]
+
+/-- **C12.left_join_complete** — `left_join` of the contig list with a grouped stream, consumed to the end
+(`dict(...)`), is exactly the specification: every contig gets its group or the default, and an error is
+raised (the trailing assertion) for an unknown contig name or an order incompatible with the contig list. -/
+theorem left_join_complete (left : List Name) (gs : List Group) (fuel : Nat) (hl : left.Nodup)
+    (hf : left.length + 1 ≤ fuel) :
+    pullAll LjSt.pull fuel (LjSt.init left gs) = specSync left [] gs := by
+  rw [specSync_eq, kept_nil_ignored, ← runL_spec left gs hl]
+  obtain ⟨f, rfl⟩ : ∃ f, fuel = f + 1 := ⟨fuel - 1, by omega⟩
+  have h1 := lj_started left { left := left, right := gs.tail, nr := gs.head?, started := true } (f + 1) rfl rfl
+    (by intro h; simp only [List.head?_eq_none_iff] at h; simp [h]) hf
+  have h2 : pullAll LjSt.pull (f + 1) (LjSt.init left gs) =
+      pullAll LjSt.pull (f + 1) { left := left, right := gs.tail, nr := gs.head?, started := true } := by
+    rw [pullAllL_succ, pullAllL_succ]
+    simp [LjSt.pull, LjSt.init]
+  rw [h2, h1]
+  cases gs <;> simp [Option.toList]
+
+/-! ### the `zip` consumer: every column of a completed `zip` is a prefix run of its iterator -/
+
+theorem zipRound_row (ms : List M) : ∀ (xs : List Item) (ms' : List M), zipRound ms = .row xs ms' →
+    xs.length = ms.length ∧ ms'.length = ms.length ∧
+    ∀ i (h : i < ms.length) (h1 : i < xs.length) (h2 : i < ms'.length), ms[i].pull = .yield xs[i] ms'[i] := by
+  induction ms with
+  | nil =>
+    intro xs ms' h
+    simp only [zipRound, Round.row.injEq] at h
+    obtain ⟨rfl, rfl⟩ := h
+    exact ⟨rfl, rfl, fun i h => by simp at h⟩
+  | cons m r ih =>
+    intro xs ms' h
+    simp only [zipRound] at h
+    cases hp : m.pull with
+    | error => rw [hp] at h; simp at h
+    | done => rw [hp] at h; simp at h
+    | yield x m' =>
+      rw [hp] at h
+      simp only [] at h
+      cases hr : zipRound r with
+      | error => rw [hr] at h; simp at h
+      | stop => rw [hr] at h; simp at h
+      | row xs₀ ms₀ =>
+        rw [hr] at h
+        simp only [Round.row.injEq] at h
+        obtain ⟨rfl, rfl⟩ := h
+        obtain ⟨h1, h2, h3⟩ := ih xs₀ ms₀ hr
+        refine ⟨by simp [h1], by simp [h2], ?_⟩
+        intro i hi hi1 hi2
+        cases i with
+        | zero => simpa using hp
+        | succ i => simpa using h3 i (by simpa using hi) (by simpa using hi1) (by simpa using hi2)
+
+theorem zipAll_column (f : Nat) : ∀ (ms : List M) (rows : List (List Item)), zipAll f ms = some rows →
+    ∀ i (h : i < ms.length), ∃ m', takeN M.pull rows.length ms[i] = some (rows.map (fun r => r.getD i []), m') := by
+  induction f with
+  | zero => intro ms rows h; simp [zipAll] at h
+  | succ f ih =>
+    intro ms rows h i hi
+    simp only [zipAll] at h
+    cases hr : zipRound ms with
+    | error => rw [hr] at h; simp at h
+    | stop =>
+      rw [hr] at h
+      simp only [Option.some.injEq] at h
+      subst h
+      exact ⟨ms[i], by simp [takeN]⟩
+    | row xs ms' =>
+      rw [hr] at h
+      simp only [] at h
+      cases hz : zipAll f ms' with
+      | none => rw [hz] at h; simp at h
+      | some rows' =>
+        rw [hz] at h
+        simp only [Option.map_some, Option.some.injEq] at h
+        subst h
+        obtain ⟨h1, h2, h3⟩ := zipRound_row ms xs ms' hr
+        obtain ⟨m', hm'⟩ := ih ms' rows' hz i (by omega)
+        refine ⟨m', ?_⟩
+        have hp := h3 i hi (by omega) (by omega)
+        simp only [List.length_cons, takeN, hp, hm', Option.map_some, List.map_cons]
+        congr 2
+        simp [List.getD_eq_getElem?_getD, List.getElem?_eq_getElem (show i < xs.length by omega)]
+
+theorem takeN_lookIter (n : Nat) : ∀ (s : IterSt) (h : Hold) (xs : List Item) (m' : M),
+    takeN M.pull n (.lookIter s h) = some (xs, m') →
+    ∃ st, takeN (lookPull IterSt.pull) n (s, h) = some (xs, st) := by
+  induction n with
+  | zero => intro s h xs m' hh; simp only [takeN, Option.some.injEq, Prod.mk.injEq] at hh; exact ⟨(s, h), by simp [takeN, hh.1]⟩
+  | succ n ih =>
+    intro s h xs m' hh
+    simp only [takeN, M.pull] at hh ⊢
+    cases hp : lookPull IterSt.pull (s, h) with
+    | error => rw [hp] at hh; simp at hh
+    | done => rw [hp] at hh; simp at hh
+    | yield x s' =>
+      rw [hp] at hh
+      simp only [] at hh
+      cases hr : takeN M.pull n (.lookIter s'.1 s'.2) with
+      | none => rw [hr] at hh; simp at hh
+      | some r =>
+        rw [hr] at hh
+        simp only [Option.map_some, Option.some.injEq, Prod.mk.injEq] at hh
+        obtain ⟨st, hst⟩ := ih s'.1 s'.2 r.1 r.2 (by rw [hr])
+        exact ⟨st, by simp [hst, hh.1]⟩
+
+theorem takeN_lookSync (n : Nat) : ∀ (s : SyncSt) (h : Hold) (xs : List Item) (m' : M),
+    takeN M.pull n (.lookSync s h) = some (xs, m') →
+    ∃ st, takeN (lookPull SyncSt.pull) n (s, h) = some (xs, st) := by
+  induction n with
+  | zero => intro s h xs m' hh; simp only [takeN, Option.some.injEq, Prod.mk.injEq] at hh; exact ⟨(s, h), by simp [takeN, hh.1]⟩
+  | succ n ih =>
+    intro s h xs m' hh
+    simp only [takeN, M.pull] at hh ⊢
+    cases hp : lookPull SyncSt.pull (s, h) with
+    | error => rw [hp] at hh; simp at hh
+    | done => rw [hp] at hh; simp at hh
+    | yield x s' =>
+      rw [hp] at hh
+      simp only [] at hh
+      cases hr : takeN M.pull n (.lookSync s'.1 s'.2) with
+      | none => rw [hr] at hh; simp at hh
+      | some r =>
+        rw [hr] at hh
+        simp only [Option.map_some, Option.some.injEq, Prod.mk.injEq] at hh
+        obtain ⟨st, hst⟩ := ih s'.1 s'.2 r.1 r.2 (by rw [hr])
+        exact ⟨st, by simp [hst, hh.1]⟩
+
+/-- **C12.zip_columns_complete** — the `zip` consumer (`streamable._args_stream`, hence `forbes` / `jaccard`,
+and the argument evaluation of the computation graph) with the repaired generators: if `zip` over any
+list of iterators completes with one row per contig, then *every* column that comes from
+`iter_chromosomes` (position `i` arbitrary — first, second, last) is exactly the specification of its
+own stream, and likewise every column that comes from a `SynchedStream`. A mis-ordered, unknown or
+left-over group in any operand therefore makes the evaluation raise; it cannot complete silently. -/
+theorem zip_columns_complete (order : List Name) (hord : order.Nodup) (hpos : 0 < order.length)
+    (f : Nat) (ms : List M) (rows : List (List Item)) (hz : zipAll f ms = some rows)
+    (hrows : rows.length = order.length) (i : Nat) (hi : i < ms.length) :
+    (∀ ignored gs, ((kept ignored gs).map (·.name)).Nodup →
+      ms[i] = .lookIter (IterSt.init order order ignored gs) .fresh →
+      specSync order ignored gs = some (rows.map (fun r => r.getD i []))) ∧
+    (∀ gs, ms[i] = .lookSync (SyncSt.init order gs) .fresh →
+      specSync order [] gs = some (rows.map (fun r => r.getD i []))) := by
+  obtain ⟨m', hm'⟩ := zipAll_column f ms rows hz i hi
+  rw [hrows] at hm'
+  constructor
+  · intro ignored gs hnames hmi
+    rw [hmi] at hm'
+    obtain ⟨st, hst⟩ := takeN_lookIter _ _ _ _ _ hm'
+    exact sync_complete_any_consumer order ignored gs hord hnames hpos _ st hst
+  · intro gs hmi
+    rw [hmi] at hm'
+    obtain ⟨st, hst⟩ := takeN_lookSync _ _ _ _ _ hm'
+    exact synched_complete_any_consumer order gs hord hpos _ st hst
 
 end C12
